@@ -20,6 +20,7 @@ from graphql.execution.incremental import (
     StreamItemQueue,
     StreamItemValue,
 )
+from graphql.execution.incremental.incremental_executor import IncrementalExecutor
 from graphql.execution.incremental.work_queue import Work, WorkResult
 from graphql.pyutils import Path
 
@@ -413,6 +414,26 @@ class Ctx:
         self.hook_calls += 1
 
 
+class _SubExecutorStandIn:
+    """What IncrementalExecutor.abort()/abort_and_settle() need from `self`."""
+
+    def __init__(self, world, work):
+        self.world = world
+        self.tasks = list(work.tasks)
+        self.streams = list(work.streams)
+
+    @staticmethod
+    def is_awaitable(value):
+        return hasattr(value, "__await__")
+
+    def abort(self, reason=None):
+        return IncrementalExecutor.abort(self, reason)
+
+    def settle_in_background(self, awaitables):
+        self.world.background.append(
+            asyncio.ensure_future(asyncio.gather(*awaitables, return_exceptions=True)))
+
+
 class World2:
     def __init__(self, sim, spec, early, capacity):
         self.sim = sim
@@ -426,6 +447,7 @@ class World2:
         self.slow_cancels = 0
         self.pushed_behind_failure = 0  # items handed to a queue behind a failing item
         self.nested_aborts_by_producer = 0  # cancelled producers that had to abort nested work
+        self.background = []  # shielded cleanups left to finish in the background
 
     def build(self, ws):
         groups = []
@@ -509,22 +531,22 @@ class World2:
         async def held_item(ext, work):
             # like IncrementalExecutor.complete_stream_item: the producer completes the item
             # itself (no early execution) and, when it fails or is cancelled meanwhile, aborts
-            # the work nested in the item before passing the failure on
+            # the work nested in the item before passing the failure on - through the
+            # executor's own abort() / abort_and_settle(), run on a stand-in for the item's
+            # sub-executor
             try:
                 return await ext.fut
             except (Exception, asyncio.CancelledError):
-                aw = []
-                for task in (work.tasks if work else ()):
-                    r = task.computation.abort()
-                    if r is not None and hasattr(r, "__await__"):
-                        aw.append(r)
-                for stream in (work.streams if work else ()):
-                    r = stream.queue.abort()
-                    if r is not None and hasattr(r, "__await__"):
-                        aw.append(r)
-                if aw:
+                if work is not None and (work.tasks or work.streams):
                     self.nested_aborts_by_producer += 1
-                    await asyncio.gather(*aw, return_exceptions=True)
+                    sub = _SubExecutorStandIn(self, work)
+                    settle = getattr(IncrementalExecutor, "abort_and_settle", None)
+                    if settle is not None:
+                        await settle(sub)
+                    else:  # older trees: abort and await in place
+                        r = IncrementalExecutor.abort(sub)
+                        if r is not None:
+                            await r
                 raise
 
         async def produce(queue):
